@@ -25,6 +25,17 @@ def _c02(tier, seed):
     ps = families.c02(tier, seed) + families.wide("C02")
     ps = ps + families.uniform_twins(ps, 2 if tier == "quick" else 1) + families.adv_twins(ps, 4 if tier == "quick" else 2) + families.selfadv_twins(ps)
     ps = ps + families.own_placements("C02", ps) + families.own_spellings("C02", "PartialEq") + families.bound_twins(ps)
+    # PartialEq educed next to PartialOrd / Ord whose fields carry ignore / method / rank: `==` still compares every field
+    import copy as _copy
+    extra = []
+    for q in [p for p in families.c03(tier, seed) if any(f.s("ord", "ignore") or f.s("ord", "method") for v in p.variants for f in v.fields)][::9][:14]:
+        q = _copy.deepcopy(q)
+        q.tags.pop("frozen_src", None)
+        q.pid = "po" + q.pid[1:]
+        q.focus = {"PartialEq"}
+        q.note = "PartialEq next to attributes of the ordering traits: " + q.note
+        extra.append(q)
+    ps = ps + _retag(extra, "C02")
     return ps + families.canaries_eq(ps)
 
 
